@@ -857,10 +857,14 @@ class RlRaggedRowSum(Family):
         inv = lambda k_: DS(r, B(r, c) + k_) == DS(r, B(r, c)) + k_ * W(r, c)
         ctx.prove("lemmaA.base: k = 0", inv(z3.IntVal(0)), pool=[r, c], live=[k])
         ctx.prove("lemmaA.step: along run c from k to k+1", z3.Implies(inv(k), inv(k + 1)), pool=[r, c, c + 1, x, x + 1, VL(r), z3.IntVal(0)])
-        ctx.assume_forall("lemmaA (by induction on k)", lambda r_, c_, k_: z3.Implies(z3.And(0 <= r_, r_ < n, 0 <= c_, c_ < VL(r_), 0 <= k_, k_ <= B(r_, c_ + 1) - B(r_, c_)),
-                          DS(r_, B(r_, c_) + k_) == DS(r_, B(r_, c_)) + k_ * W(r_, c_)), arity=3)
+        lemmaA = lambda r_, c_, k_: z3.Implies(z3.And(0 <= r_, r_ < n, 0 <= c_, c_ < VL(r_), 0 <= k_, k_ <= B(r_, c_ + 1) - B(r_, c_)),
+                                               DS(r_, B(r_, c_) + k_) == DS(r_, B(r_, c_)) + k_ * W(r_, c_))
         r2, c2 = z3.Int("r2"), z3.Int("c2")
         ctx.skolem(z3.And(0 <= r2, r2 < n, 1 <= c2, c2 < VL(r2)))
+        # lemmaA (proved above by induction on k, for arbitrary r, c, k) is used at exactly two instances: the whole first run and the whole run c2
+        # (stated as ground instances rather than as a schema over the pool: the products k * value would be instantiated pool^3 times)
+        ctx.assume(z3.simplify(lemmaA(r2, z3.IntVal(0), B(r2, 1) - B(r2, 0))))
+        ctx.assume(z3.simplify(lemmaA(r2, c2, B(r2, c2 + 1) - B(r2, c2))))
         fl = prod.ravel()
         prow = prod._shape.rowof
         q0, q = PS_(r2), PS_(r2) + c2
